@@ -58,8 +58,8 @@ def backoff(n: int) -> int:
 
 
 def records(kind: str, name: str = "dev") -> list[Any]:
-    from zeroconf import DNSAddress, DNSPointer, RecordUpdate
-    from zeroconf.const import _CLASS_IN, _TYPE_A, _TYPE_PTR
+    from zeroconf import DNSAddress, DNSNsec, DNSPointer, DNSService, DNSText, RecordUpdate
+    from zeroconf.const import _CLASS_IN, _TYPE_A, _TYPE_AAAA, _TYPE_NSEC, _TYPE_PTR, _TYPE_SRV, _TYPE_TXT
 
     def ptr(n: str) -> Any:
         return RecordUpdate(DNSPointer("_esphomelib._tcp.local.", _TYPE_PTR, _CLASS_IN, 4500, f"{n}._esphomelib._tcp.local."), None)
@@ -71,6 +71,24 @@ def records(kind: str, name: str = "dev") -> list[Any]:
         # the device was seen before: zeroconf hands over the cached record as `old` (a reboot within the TTL looks exactly like this)
         return RecordUpdate(r.new, r.new)
 
+    # records of the types a real answer carries around the PTR / A ones (python-zeroconf hands over all records of one packet as one batch:
+    # SRV and TXT in front of the A record in an answer to a service query, AAAA before A, NSEC at the end)
+    def srv(n: str) -> Any:
+        return RecordUpdate(DNSService(f"{n}._esphomelib._tcp.local.", _TYPE_SRV, _CLASS_IN, 120, 0, 0, 6053, f"{n}.local."), None)
+
+    def txt(n: str) -> Any:
+        return RecordUpdate(DNSText(f"{n}._esphomelib._tcp.local.", _TYPE_TXT, _CLASS_IN, 4500, b"\x0bversion=1.0\x0dmac=aabbccddeeff"), None)
+
+    def aaaa(n: str) -> Any:
+        return RecordUpdate(DNSAddress(f"{n}.local.", _TYPE_AAAA, _CLASS_IN, 120, bytes([0xFD, 0]) + bytes(13) + b"\x01"), None)
+
+    def nsec(n: str) -> Any:
+        return RecordUpdate(DNSNsec(f"{n}.local.", _TYPE_NSEC, _CLASS_IN, 120, f"{n}.local.", [_TYPE_A, _TYPE_AAAA]), None)
+
+    extra = {"match-a-behind-srv-txt": [srv(name), txt(name), a(name)], "match-ptr-behind-aaaa-nsec": [aaaa(name), nsec(name), ptr(name)],
+             "nomatch-other-types": [srv(name), txt(name), aaaa(name), nsec(name)]}
+    if kind in extra:
+        return extra[kind]
     return {"match-ptr": [ptr(name)], "match-a": [a(name)], "match-both": [ptr("other"), a(name), ptr(name)],
             "match-ptr-refresh": [refresh(ptr(name))], "match-a-refresh": [refresh(a("other")), refresh(a(name))],
             "nomatch-ptr": [ptr("other")], "nomatch-a": [a("other")], "nomatch-both": [ptr("other2"), a("dev2")]}[kind]
@@ -282,7 +300,7 @@ def run_history(case: dict[str, Any]) -> dict[str, Any]:
             "tcp": [(a["t_begin"], a["address"][0], a["outcome"]) for a in sim.net.connect_attempts],
             "open_sockets": len(sim.open_sockets()), "harness_errors": list(sim.harness_errors), "loop_exceptions": list(sim.loop_exceptions),
             "trace": sim.trace(200), "pending_calls": [c.name for c in calls if not c.done],
-            "live_timers": sim.live_timers(),
+            "live_timers": sim.live_timers(), "timer_fired": list(sim.timer_fired),
         })
     return out
 
@@ -297,7 +315,7 @@ def judge(case: dict[str, Any], o: dict[str, Any]) -> tuple[list[tuple[str, str]
     from aioesphomeapi.core import APIConnectionCancelledError
 
     out: list[tuple[str, str]] = []
-    st = {"attempts": 0, "attempts_failed": 0, "sessions": 0, "sessions_ended": 0, "mdns_delivered_matching": 0, "mdns_not_delivered": 0, "mdns_not_delivered/while-waiting-between-attempts": 0,
+    st = {"attempts": 0, "attempts_failed": 0, "sessions": 0, "sessions_ended": 0, "mdns_delivered_matching": 0, "mdns_not_delivered": 0, "mdns_not_delivered/while-waiting-between-attempts": 0, "backoff_instants_superseded_by_newer_failure": 0,
           "due_checked": 0, "due_skipped": 0, "stops": 0, "starts": 0, "restarts(manager-cancelled)": 0, "justified_by/start": 0, "justified_by/backoff": 0,
           "justified_by/disconnect": 0, "justified_by/mdns": 0, "justified_by/lock-released-by-callback": 0, "refused-by-client(already connected)": 0}
     evs: list[tuple[int, float, str, Any]] = []
@@ -486,6 +504,13 @@ def judge(case: dict[str, Any], o: dict[str, Any]) -> tuple[list[tuple[str, str]
                 else:
                     pending_fail = {"exc": e[6], "t": t}
         elif kind == "cb:on_connect_error:enter":
+            if not isinstance(e, APIConnectionCancelledError):
+                # "after the n-th consecutive failed attempt it retries after ...": once a newer failure has been reported, the back-off instant of an
+                # earlier failure justifies nothing any more (a retry timer left armed from it is stale; the wait that counts is this failure's)
+                stale = [j for j in J if j[1].startswith("backoff ")]
+                if stale:
+                    st["backoff_instants_superseded_by_newer_failure"] += len(stale)
+                    J[:] = [j for j in J if not j[1].startswith("backoff ")]
             if pending_fail is not None:
                 if e is not pending_fail["exc"]:
                     out.append(("C18/on_connect_error-wrong-exception", f"reported {e!r}, the attempt raised {pending_fail['exc']!r}"))
@@ -604,7 +629,7 @@ VARIANTS += [{"addr": a, "noise": False, "zc": z, "slow_cb": 0.0, "cb_raises": c
 
 ALPHABET: list[Any] = [
     ["start"], ["stop"], ["world", "refuse"], ["world", "ok"], ["run", 2.0], ["run", "timer"], ["mdns", "match-ptr"], ["mdns", "nomatch-a"],
-    ["dev", "eof"], ["dev", "discreq"], ["mdns", "match-a-refresh"],
+    ["dev", "eof"], ["dev", "discreq"], ["mdns", "match-a-refresh"], ["mdns", "match-a-behind-srv-txt"],
 ]
 RUNS: list[Any] = [0, 0.001, 0.5, 1.0, 2.0, 3.0, 5.0, 6.0, 10.0, 60.0, "timer-", "timer", "timer+"]
 
@@ -621,7 +646,8 @@ def gen_history(rng: Any) -> list[Any]:
         elif r < 0.40:
             h.append(["world", rng.choice(WORLDS) if rng.random() < 0.6 else "ok"])
         elif r < 0.55:
-            kind = rng.choice(["match-ptr", "match-a", "match-both", "match-ptr-refresh", "match-a-refresh", "nomatch-ptr", "nomatch-a", "nomatch-both"])
+            kind = rng.choice(["match-ptr", "match-a", "match-both", "match-ptr-refresh", "match-a-refresh", "nomatch-ptr", "nomatch-a", "nomatch-both",
+                               "match-a-behind-srv-txt", "match-ptr-behind-aaaa-nsec", "nomatch-other-types"])
             h.append(["mdns", kind, "at-timer"] if rng.random() < 0.2 else ["mdns", kind])
         elif r < 0.70:
             h.append(["dev", rng.choice(["eof", "rst", "discreq", "garbage"])])
@@ -663,6 +689,19 @@ def one(ctx: Ctx, case: dict[str, Any], label: str) -> None:
         res.count(f"observed/{k}", v)
     res.count("observed/tcp_attempts", len(o["tcp"]))
     res.count("steps_skipped(nothing to act on)", o["skipped"])
+    # how often the hard window was actually reached: a retry timer of the manager ran while an on_connect_error hook was suspended
+    hook_spans, open_at = [], None
+    for c in o["cbs"]:
+        if c[2] == "on_connect_error":
+            if c[3] == "enter":
+                open_at = c[0]
+            elif open_at is not None:
+                hook_spans.append((open_at, c[0]))
+                open_at = None
+    if open_at is not None:
+        hook_spans.append((open_at, float("inf")))
+    res.count("retry-timer-fired-while-error-hook-suspended",
+              sum(1 for ts, _t, name in o.get("timer_fired", ()) if "_call_connect_once" in str(name) and any(a < ts < b for a, b in hook_spans)))
     for c in o["cbs"]:
         if c[3] == "enter":
             res.count(f"callback/{c[2]}" + (f"/{type(c[4]).__name__}" if c[2] == "on_connect_error" else f"/{c[4]}" if c[2] == "on_disconnect" else ""))
@@ -700,7 +739,10 @@ def shard(ctx: Ctx) -> None:
     # running attempt is past 'connecting', the stale timer must neither cancel it nor start another one
     for addr in ("ip", "local"):
         for zc in ("library", "supplied"):
-            for slow, t_mdns in ((0.3, 1.85), (1.5, 1.0), (1.5, 0.2), (3.0, 1.0)):
+            # the first failure's hook runs for `slow` s as well, so the manager listens from t=slow and the first retry timer is due at slow+2:
+            # a record at t_mdns in (max(slow, 2), slow+2) starts attempt #2 whose hook is still running when that timer fires; the other
+            # pairs put the record before the manager listens or let the hook end before the timer
+            for slow, t_mdns in ((0.3, 2.1), (1.5, 2.5), (1.5, 3.4), (3.0, 3.5), (3.0, 4.9), (0.3, 1.85), (1.5, 1.0), (1.5, 0.2), (3.0, 1.0)):
                 for w in ("refuse", "dns-fail", "garbage"):
                     idx += 1
                     if ctx.mine(idx):
